@@ -17,6 +17,39 @@ pub static STOP: std::sync::atomic::AtomicBool = std::sync::atomic::AtomicBool::
 pub static NFAILS: std::sync::atomic::AtomicUsize = std::sync::atomic::AtomicUsize::new(0);
 pub const FAIL_CAP: usize = 40;
 /// a new section of a run (one flavour / one generator) gets its own failure budget
+/// directory for the in-flight markers of `run` mode: before a case is executed its lines are written to
+/// `<dir>/inflight-<thread>.prog`, so that a crash that kills the process (allocation failure, stack overflow,
+/// abort) still leaves the input that caused it; `check` replays these files after a crash
+pub static INFLIGHT_DIR: std::sync::OnceLock<String> = std::sync::OnceLock::new();
+static INFLIGHT_NEXT: std::sync::atomic::AtomicUsize = std::sync::atomic::AtomicUsize::new(0);
+thread_local! {
+    static INFLIGHT_FILE: std::cell::RefCell<Option<std::fs::File>> = const { std::cell::RefCell::new(None) };
+}
+pub fn inflight(head: &str, body: &[String]) {
+    let Some(dir) = INFLIGHT_DIR.get() else { return };
+    use std::io::{Seek, Write};
+    INFLIGHT_FILE.with(|f| {
+        let mut f = f.borrow_mut();
+        if f.is_none() {
+            let id = INFLIGHT_NEXT.fetch_add(1, std::sync::atomic::Ordering::SeqCst);
+            let _ = std::fs::create_dir_all(dir);
+            *f = std::fs::File::create(format!("{dir}/inflight-{id}.prog")).ok();
+        }
+        if let Some(file) = f.as_mut() {
+            let mut text = String::with_capacity(64 + body.iter().map(|l| l.len() + 1).sum::<usize>());
+            text.push_str(head);
+            text.push('\n');
+            for l in body {
+                text.push_str(l);
+                text.push('\n');
+            }
+            let _ = file.seek(std::io::SeekFrom::Start(0));
+            let _ = file.set_len(0);
+            let _ = file.write_all(text.as_bytes());
+        }
+    });
+}
+
 pub fn new_section() {
     STOP.store(false, std::sync::atomic::Ordering::SeqCst);
     NFAILS.store(0, std::sync::atomic::Ordering::SeqCst);
@@ -452,6 +485,7 @@ pub fn run_program(lines: &[String], ctx: &mut Ctx) {
         ctx.outs.push("case".into());
         let body = &lines[i + 1..j];
         let id = head.clone();
+        inflight(head, body);
         match t[1] {
             "di" => di::exec_case(&id, body, ctx),
             "sdi" => sdi::exec_case(&id, body, ctx),
